@@ -185,13 +185,33 @@ def core_proxy(stub=None):
         if any(is_sym(v) for v in flat.reshape(-1)):
             return flat.view(SymArray)
         return np.array(obj, dtype=dtype, **k)
-    return NpProxy(random=stub, overrides={"array": array})
+    def nan_to_num(a, copy=True, nan=0.0, posinf=None, neginf=None):
+        """numpy semantics on mixed symbolic/float arrays: NaN -> nan, +inf -> posinf or the largest double, -inf -> neginf or the most negative double"""
+        big = float(np.finfo(np.float64).max)
+
+        def one(v):
+            if isinstance(v, float):
+                if v != v:
+                    return nan
+                if v == float("inf"):
+                    return big if posinf is None else posinf
+                if v == float("-inf"):
+                    return -big if neginf is None else neginf
+            return v
+        arr = np.asarray(a, dtype=object)
+        out = np.empty(arr.shape, dtype=object)
+        for idx in np.ndindex(arr.shape):
+            out[idx] = one(arr[idx])
+        return out.view(SymArray) if arr.ndim else out.item()
+    return NpProxy(random=stub, overrides={"array": array, "nan_to_num": nan_to_num})
 
 
 def point_likelihood(cb: Callbacks, blobs: bool, counter: dict):
     def f(xrow):
         counter["points"] += 1
         row = list(np.asarray(xrow, dtype=object).reshape(-1))
+        if cb.inf and bool(SymBool(cb.inf_term(row))):
+            return (float("-inf"), cb.bl_term(row)) if blobs else float("-inf")
         if blobs:
             return (cb.ll_term(row), cb.bl_term(row))
         return cb.ll_term(row)
@@ -202,7 +222,7 @@ def batch_likelihood(cb: Callbacks, counter: dict):
     def f(x):
         x = np.asarray(x, dtype=object)
         counter["points"] += x.shape[0]
-        return sarr([cb.ll_term(list(x[i])) for i in range(x.shape[0])])
+        return sarr([float("-inf") if (cb.inf and bool(SymBool(cb.inf_term(list(x[i]))))) else cb.ll_term(list(x[i])) for i in range(x.shape[0])])
     return f
 
 
@@ -343,11 +363,11 @@ def make_loglike(strat, blobs, npts, d=1):
 # ------------------------------------------------------------------ paired mutation runs
 
 
-def make_paired(stratA, stratB, phase, d=1, n=2):
+def make_paired(stratA, stratB, phase, d=1, n=2, inf=False):
     """run Mutator.run under two evaluation strategies with the same random draws; compare states and call counts."""
 
     def one(ctx, strat, tag):
-        cb = Callbacks(d, blobs=False)
+        cb = Callbacks(d, blobs=False, inf=inf)
         counter = {"points": 0}
         rec = []
         smp = build_sampler(ctx, cb, strat, False, counter, d=d, n=n, mp_record=rec)
@@ -383,11 +403,17 @@ def make_paired(stratA, stratB, phase, d=1, n=2):
         ca, pa = one(ctx, stratA, "A")
         cb_, pb = one(ctx, stratB, "B")
         conds = []
+        la, lb = list(ca["logl"]), list(cb_["logl"])
+        if any(isinstance(v, float) for v in la + lb):
+            ctx.check("same-finite/-inf-pattern-of-stored-log-likelihoods", z3.BoolVal([isinstance(v, float) and v for v in la] == [isinstance(v, float) and v for v in lb]),
+                      detail=[str(v)[:20] for v in la + lb])
+            if all(isinstance(v, float) for v in la) or [isinstance(v, float) for v in la] != [isinstance(v, float) for v in lb]:
+                return None
         for key in ("u", "x"):
             a, b = np.asarray(ca[key], dtype=object), np.asarray(cb_[key], dtype=object)
             ctx.check(f"same-shape-{key}", z3.BoolVal(a.shape == b.shape))
             conds += [eq(p, q) for p, q in zip(a.reshape(-1), b.reshape(-1))]
-        conds += [eq(p, q) for p, q in zip(ca["logl"], cb_["logl"])]
+        conds += [eq(p, q) for p, q in zip(ca["logl"], cb_["logl"]) if not isinstance(p, float)]
         ctx.check("identical-particles-under-both-strategies", z3.And(*conds))
         ctx.check("calls==points-evaluated(A)", z3.BoolVal(ca["calls"] == 7 + pa))
         ctx.check("calls==points-evaluated(B)", z3.BoolVal(cb_["calls"] == 7 + pb))
@@ -401,11 +427,14 @@ def make_paired(stratA, stratB, phase, d=1, n=2):
 
             def fpt(xr):
                 cnt["n"] += 1
+                if inf and xr[0] < 0.5:
+                    return -np.inf
                 return -float(np.sum((xr - 0.3) ** 2)) * 5
 
             def fb(xx):
                 cnt["n"] += len(xx)
-                return -np.sum((xx - 0.3) ** 2, axis=1) * 5
+                out = -np.sum((xx - 0.3) ** 2, axis=1) * 5
+                return np.where(xx[:, 0] < 0.5, -np.inf, out) if inf else out
             kw = dict(n_dim=d, n_particles=n, clustering=False, sample="rwm", n_steps=1, n_max_steps=1)
             smp = Sampler(lambda u: u, fb, vectorize=True, **kw) if strat == "vectorized" else Sampler(lambda u: u, fpt, **kw)
             st = smp.state
@@ -421,20 +450,25 @@ def make_paired(stratA, stratB, phase, d=1, n=2):
                 ms = ModeStatistics(np.full((1, d), 0.4), (0.05 * np.eye(d)).reshape(1, d, d), np.array([3.0]))
             s0 = np.random.get_state()
             np.random.seed(11)
+            real_randn = np.random.randn
             try:
-                smp._core.mutator.run(ms)
+                if phase == "mcmc" and label.startswith("calls=="):
+                    np.random.randn = lambda *a: np.full(a, 50.0)  # every proposal leaves the unit cube
+                with np.errstate(all="ignore"):
+                    smp._core.mutator.run(ms)
             finally:
+                np.random.randn = real_randn
                 np.random.set_state(s0)
             res[strat] = (st.get_current(), cnt["n"])
         (ca, pa), (cb_, pb) = res[stratA], res[stratB]
         bad = (not np.array_equal(ca["u"], cb_["u"])) or (not np.array_equal(ca["logl"], cb_["logl"])) or \
-              ca["calls"] != 7 + pa or cb_["calls"] != 7 + pb
+              ca["calls"] != 7 + pa or cb_["calls"] != 7 + pb or bool(np.any(np.isinf(ca["logl"])) != np.any(np.isinf(cb_["logl"])))
         return {"reproduced": bool(bad), "signature": f"Mutator.run:{phase}:{label}",
                 "payload": {"calls": [int(ca["calls"]), int(cb_["calls"])], "evaluated": [pa, pb]},
                 "what": f"Mutator.run ({phase}) under {stratA} vs {stratB}: calls {ca['calls']},{cb_['calls']} vs evaluated points {pa},{pb}; "
                         f"states equal={np.array_equal(ca['u'], cb_['u'])}"}
 
-    return Obligation(f"paired-{phase}-{stratA}-vs-{stratB}", harness, replay=replay,
+    return Obligation(f"paired-{phase}-{stratA}-vs-{stratB}{'-zero-likelihood-region' if inf else ''}", harness, replay=replay,
                       encodes=[mutate_mod.Mutator.run, core_mod.SamplerCore._log_like, mcmc.BaseMCMCRunner._evaluate_likelihood, mcmc.BaseMCMCRunner.run],
                       bounds=f"{n} particles, d={d}, one kernel iteration (rwm) / one prior batch, identical symbolic draws in both runs, <= 1 redraw",
                       stubs=["np.random.* -> shared symbolic draws", "_adapt_sigma -> no-op, _check_convergence -> True (one kernel iteration)", "float() -> identity", "multiprocess.Pool -> contract double"],
@@ -446,7 +480,7 @@ def obligations(tier):
     for strat in STRATS:
         for blobs in ((False, True) if strat != "vectorized" else (False,)):
             obs.append(make_loglike(strat, blobs, 3 if tier == "quick" else 3))
-    obs += [make_paired("vectorized", "serial", "warmup"), make_paired("serial", "pool-object", "mcmc"),
+    obs += [make_paired("vectorized", "serial", "warmup"), make_paired("vectorized", "serial", "warmup", inf=True), make_paired("serial", "pool-object", "mcmc"),
             make_paired("vectorized", "serial", "mcmc")]
     if tier == "thorough":
         obs += [make_paired("vectorized", "pool-object", "warmup"), make_paired("serial", "pool-int", "mcmc"),
